@@ -18,6 +18,22 @@ def src(node):
         return "<%s>" % type(node).__name__
 
 
+def clone(node):
+    """deep copy of an ast subtree through its _fields only (copy.deepcopy would follow the _parent links up to the module)"""
+    if isinstance(node, list):
+        return [clone(x) for x in node]
+    if not isinstance(node, ast.AST):
+        return node
+    new = node.__class__()
+    for f in node._fields:
+        if hasattr(node, f):
+            setattr(new, f, clone(getattr(node, f)))
+    for a in ("lineno", "col_offset", "end_lineno", "end_col_offset"):
+        if hasattr(node, a):
+            setattr(new, a, getattr(node, a))
+    return new
+
+
 class Module(object):
     def __init__(self, root, rel):
         self.rel = rel
@@ -241,7 +257,7 @@ class _Subst(ast.NodeTransformer):
     def visit_Name(self, n):
         if n.id in self.m and isinstance(n.ctx, ast.Load):
             import copy
-            return copy.deepcopy(self.m[n.id])
+            return clone(self.m[n.id])
         if n.id in self.m and isinstance(self.m[n.id], ast.Name):
             return ast.copy_location(ast.Name(id=self.m[n.id].id, ctx=n.ctx), n)
         return n
@@ -309,7 +325,8 @@ def inlined(mod, fn, depth=2, keep=()):
     """copy of function `fn` in which calls of same-module helpers are replaced by the helper's code:
       - a helper that is one 'return <expr>' is substituted as an expression wherever it is called;
       - 'helper(...)' as a statement, 'x = helper(...)', 'x op= helper(...)' and 'return helper(...)' are replaced by the helper's
-        statements when its returns are in tail position.
+        statements when its returns are in tail position;
+      - counting while loops are rewritten as for loops over range() (normalise_loops).
     Parameters are substituted by the argument expressions (only plain names / attributes / constants / subscripts, and only when
     the helper never rebinds the parameter); the helper's other locals are renamed when they collide with a name of the caller.
     Helpers named in `keep` stay calls (the rule wants to see them).  Line numbers of inlined code are call_line + k * 1e-4 so that source order is preserved."""
@@ -321,7 +338,7 @@ def inlined(mod, fn, depth=2, keep=()):
             owner = n
             break
         n = getattr(n, "_parent", None)
-    new = copy.deepcopy(fn)
+    new = clone(fn)
     counter = [0]
 
     def prepare(call, want_expr):
@@ -349,7 +366,7 @@ def inlined(mod, fn, depth=2, keep=()):
                 return None
             if not _simple_arg(v) and any(isinstance(y, (ast.For, ast.While, ast.Lambda, ast.ListComp, ast.GeneratorExp, ast.DictComp, ast.SetComp)) for y in ast.walk(h)):
                 return None
-        body = copy.deepcopy(h.body)
+        body = clone(h.body)
         # rename colliding locals
         mine = _stored_names(new) | {a.arg for a in new.args.args}
         ren = {}
@@ -411,10 +428,10 @@ def inlined(mod, fn, depth=2, keep=()):
                 mk = lambda v: []
             elif isinstance(st, ast.Assign) and isinstance(st.value, ast.Call):
                 call = st.value
-                mk = lambda v, st=st: [ast.Assign(targets=copy.deepcopy(st.targets), value=v if v is not None else ast.Constant(value=None), lineno=st.lineno)]
+                mk = lambda v, st=st: [ast.Assign(targets=clone(st.targets), value=v if v is not None else ast.Constant(value=None), lineno=st.lineno)]
             elif isinstance(st, ast.AugAssign) and isinstance(st.value, ast.Call):
                 call = st.value
-                mk = lambda v, st=st: [ast.AugAssign(target=copy.deepcopy(st.target), op=st.op, value=v if v is not None else ast.Constant(value=None), lineno=st.lineno)]
+                mk = lambda v, st=st: [ast.AugAssign(target=clone(st.target), op=st.op, value=v if v is not None else ast.Constant(value=None), lineno=st.lineno)]
             elif isinstance(st, ast.Return) and isinstance(st.value, ast.Call):
                 call = st.value
                 mk = lambda v, st=st: [ast.Return(value=v, lineno=st.lineno)]
@@ -438,11 +455,66 @@ def inlined(mod, fn, depth=2, keep=()):
         if ast.dump(new) == before:
             break
     ast.fix_missing_locations(new)
+    normalise_loops(new)
     for n_ in ast.walk(new):
         for c in ast.iter_child_nodes(n_):
             c._parent = n_
     new._parent = getattr(fn, "_parent", None)
     return new
+
+
+def normalise_loops(fn):
+    """in place on a (cloned / inlined) function:  i = a; while i < n: BODY; i += 1   becomes   for i in range(a, n): BODY  when BODY has
+    no continue and does not assign i, n is a name / attribute / len() that BODY does not rebind, and the counter initialisation
+    directly precedes the loop.  (i is not read after the loop in the idiom; if it is, the rewrite is skipped.)"""
+    def names_stored(nodes):
+        out = set()
+        for n in nodes:
+            out |= _stored_names(n)
+        return out
+
+    def fix(stmts, following):
+        out = []
+        k = 0
+        while k < len(stmts):
+            st = stmts[k]
+            for attr in ("body", "orelse", "finalbody"):
+                if isinstance(getattr(st, attr, None), list) and not isinstance(st, (ast.FunctionDef, ast.ClassDef)):
+                    setattr(st, attr, fix(getattr(st, attr), stmts[k + 1:] + following))
+            for hnd in getattr(st, "handlers", []) or []:
+                hnd.body = fix(hnd.body, stmts[k + 1:] + following)
+            nxt = stmts[k + 1] if k + 1 < len(stmts) else None
+            if isinstance(st, ast.Assign) and len(st.targets) == 1 and isinstance(st.targets[0], ast.Name) and isinstance(nxt, ast.While) and not nxt.orelse:
+                i = st.targets[0].id
+                t = nxt.test
+                body = nxt.body
+                lastinc = body and isinstance(body[-1], ast.AugAssign) and isinstance(body[-1].op, ast.Add) and isinstance(body[-1].target, ast.Name) \
+                    and body[-1].target.id == i and isinstance(body[-1].value, ast.Constant) and body[-1].value.value == 1
+                cmp_ok = isinstance(t, ast.Compare) and len(t.ops) == 1 and isinstance(t.ops[0], ast.Lt) and isinstance(t.left, ast.Name) and t.left.id == i
+                if lastinc and cmp_ok:
+                    inner = body[:-1]
+                    bound = t.comparators[0]
+                    bnames = {x.id for x in ast.walk(bound) if isinstance(x, ast.Name)}
+                    stored = names_stored(inner)
+                    has_cont = any(isinstance(x, ast.Continue) for b in inner for x in ast.walk(b))
+                    read_after = any(isinstance(x, ast.Name) and x.id == i and isinstance(x.ctx, ast.Load) for b in stmts[k + 2:] + following for x in ast.walk(b))
+                    if i not in stored and not (bnames & stored) and not has_cont and not read_after and inner:
+                        fixed_inner = fix(inner, [])
+                        args = [bound] if (isinstance(st.value, ast.Constant) and st.value.value == 0) else [st.value, bound]
+                        loop = ast.For(target=ast.Name(id=i, ctx=ast.Store()), iter=ast.Call(func=ast.Name(id="range", ctx=ast.Load()), args=args, keywords=[]),
+                                       body=fixed_inner, orelse=[], lineno=nxt.lineno, col_offset=getattr(nxt, "col_offset", 0))
+                        ast.fix_missing_locations(loop)
+                        out.append(loop)
+                        k += 2
+                        continue
+            out.append(st)
+            k += 1
+        return out
+    fn.body = fix(fn.body, [])
+    for n_ in ast.walk(fn):
+        for c in ast.iter_child_nodes(n_):
+            c._parent = n_
+    return fn
 
 
 def unique_defs(fn):
@@ -457,7 +529,7 @@ def unique_defs(fn):
         elif isinstance(a, (ast.AugAssign, ast.For, ast.With, ast.NamedExpr)):
             t = a.target if not isinstance(a, ast.With) else None
             for x in ast.walk(t) if t is not None else []:
-                if isinstance(x, ast.Name):
+                if isinstance(x, ast.Name) and isinstance(x.ctx, ast.Store):
                     count[x.id] = count.get(x.id, 0) + 2
         elif isinstance(a, ast.Assign):
             for t in a.targets:
@@ -467,9 +539,8 @@ def unique_defs(fn):
     return {n: v for n, v in val.items() if count.get(n) == 1}
 
 
-def resolved_src(fn, node, depth=3):
-    """source text of `node` with every local name that has a unique definition in fn replaced by (its defining expression),
-    recursively: 'omega_obs' reads as '(om * sign)' when  omega_obs = om * sign  is its only assignment"""
+def resolved(fn, node, depth=3, keep=()):
+    """copy of `node` with every local name that has a unique definition in fn replaced by its defining expression, recursively"""
     defs = unique_defs(fn)
 
     class T(ast.NodeTransformer):
@@ -477,13 +548,17 @@ def resolved_src(fn, node, depth=3):
             self.d = d
 
         def visit_Name(self, n):
-            if isinstance(n.ctx, ast.Load) and n.id in defs and self.d > 0:
-                import copy
-                v = copy.deepcopy(defs[n.id])
+            if isinstance(n.ctx, ast.Load) and n.id in defs and n.id not in keep and self.d > 0:
+                v = clone(defs[n.id])
                 return T(self.d - 1).visit(v)
             return n
-    import copy
-    return src(T(depth).visit(copy.deepcopy(node)))
+    return T(depth).visit(clone(node))
+
+
+def resolved_src(fn, node, depth=3, keep=()):
+    """source text of `node` with every local name that has a unique definition in fn replaced by (its defining expression),
+    recursively: 'omega_obs' reads as '(om * sign)' when  omega_obs = om * sign  is its only assignment"""
+    return src(resolved(fn, node, depth, keep))
 
 
 def dotted(node):
